@@ -75,8 +75,8 @@ Depth == IF Dense THEN 4 ELSE 3
 NSample == IF Dense THEN 20000 ELSE 1500
 HistCases ==
   HistOf("reg", SeqsUpTo(RegOpsCore, Depth) \cup Sampled(RegOpsAll, 5, NSample) \cup SeqsUpTo(RegOpsAll, 2))
-  \o HistOf("kms", SeqsUpTo(KmsOpsAll, 3) \cup Sampled(KmsOpsAll, 6, NSample))
-  \o HistOf("cfg", SeqsUpTo(CfgOpsAll, Depth) \cup Sampled(CfgOpsAll, 7, NSample \div 2))
+  \o HistOf("kms", SeqsUpTo(KmsOpsAll, Depth) \cup Sampled(KmsOpsAll, 6, NSample))
+  \o HistOf("cfg", SeqsUpTo(CfgOpsAll, Depth + 1) \cup Sampled(CfgOpsAll, 7, NSample \div 2))
   \o FlattenSeq([i \in 1..Cardinality(GKinds) |-> HistOf(SetToSeq(GKinds)[i], SeqsUpTo(GOpsAll, 4))])
 
 \* ------------------------------------------------------------------ cfgres / custom
